@@ -11,7 +11,9 @@
 #ifndef FL_CAP
 #define FL_CAP 4
 #endif
-static void* fl_list[FL_MAX]; static void* fl_elem[FL_MAX][FL_CAP]; static int fl_count[FL_MAX]; static int fl_n; static int fl_pushes;
+static void* fl_list[FL_MAX]; static void* fl_flat[FL_MAX * FL_CAP];          /* one-dimensional on purpose: cbmc propagates constants through small 1-D arrays only */
+#define fl_elem_at(s, k) fl_flat[(s) * FL_CAP + (k)]
+static void* fl_dummy; static int fl_count[FL_MAX]; static int fl_n; static int fl_pushes;
 static int fl_slot(void* list)
 {
   for (int i = 0; i < FL_MAX; i++) if (i < fl_n && fl_list[i] == list) return i;
@@ -22,31 +24,31 @@ static int fl_find(void* list) { for (int i = 0; i < FL_MAX; i++) if (i < fl_n &
 static void fl_insert_at(int s, int at, void* node)
 {
   __CPROVER_assert(fl_count[s] < FL_CAP, "forward_list model: list length within the harness bound");
-  for (int k = FL_CAP - 1; k > 0; k--) if (k > at) fl_elem[s][k] = fl_elem[s][k - 1];
-  fl_elem[s][at] = node; fl_count[s]++; fl_pushes++;
+  for (int k = FL_CAP - 1; k > 0; k--) if (k > at) fl_elem_at(s, k) = fl_elem_at(s, k - 1);
+  fl_elem_at(s, at) = node; fl_count[s]++; fl_pushes++;
 }
 void __ipr_fl_push(void* list, void* node) { fl_insert_at(fl_slot(list), 0, node); }
 void* __ipr_fl_front(void* list)
 {
   int s = fl_find(list);
   __CPROVER_assert(s >= 0 && fl_count[s] > 0, "forward_list model: front() of a non-empty list");
-  return fl_elem[s][0];
+  return fl_elem_at(s, 0);
 }
 void* __ipr_fl_insert_after(void* list, void* pos, void* node)
 {
   int s = fl_slot(list);
   if (pos == list) { fl_insert_at(s, 0, node); return node; }            /* after before_begin() */
-  for (int k = 0; k < FL_CAP; k++) if (k < fl_count[s] && fl_elem[s][k] == pos) { fl_insert_at(s, k + 1, node); return node; }
+  for (int k = 0; k < FL_CAP; k++) if (k < fl_count[s] && fl_elem_at(s, k) == pos) { fl_insert_at(s, k + 1, node); return node; }
   __CPROVER_assert(0, "forward_list model: emplace_after at an iterator of this list"); return node;
 }
 /* sequence view used by the iterator models (lib/stdmodels.py): length, element at an index, index of an element (count for end) */
 static int fl_length(void* list) { int s = fl_find(list); return s < 0 ? 0 : fl_count[s]; }
-static void* fl_at(void* list, long k) { int s = fl_find(list); return (s >= 0 && k >= 0 && k < fl_count[s]) ? fl_elem[s][k] : (void*)0; }
+static void* fl_at(void* list, long k) { int s = fl_find(list); return (s >= 0 && k >= 0 && k < fl_count[s]) ? fl_elem_at(s, k) : (void*)0; }
 static void* fl_begin_of(void* list) { return fl_at(list, 0); }
 /* position of the element an iterator designates, in whichever list holds it; the end iterator (null) is handled by the callers */
 static int fl_locate(void* elem, int* slot)
 {
-  for (int i = 0; i < FL_MAX; i++) if (i < fl_n) for (int k = 0; k < FL_CAP; k++) if (k < fl_count[i] && fl_elem[i][k] == elem) { *slot = i; return k; }
+  for (int i = 0; i < FL_MAX; i++) if (i < fl_n) for (int k = 0; k < FL_CAP; k++) if (k < fl_count[i] && fl_elem_at(i, k) == elem) { *slot = i; return k; }
   *slot = -1; return -1;
 }
 #endif
